@@ -275,12 +275,12 @@ package parser
 //@ func (p *parser) parseIfStatement() (n Node)
 //@   props C10 C05
 //@   requires p.cur != nil && p.peek != nil && p.scope != nil
-//@   ensures[C10 scope-restored] p.scope == old(p.scope)
+//@   ensures[C10 C05 scope-restored] p.scope == old(p.scope)
 //@   ensures[C05 nothing-after-end] ncalls("(*parser).assertEnd") == 1 && ncalls("(*parser).assertEOL") == ncalls("(*parser).curComment") + 1
 //@   ensures[C03 cursor-valid] p.cur != nil && p.peek != nil
 //@   modifies allbut parseFrame
 //@   loop 1 modifies allbut parseFrame
-//@   loop 1 invariant p.scope == old(p.scope) && ifStmt != nil && p.cur != nil && p.peek != nil && ncalls("(*parser).assertEnd") == 0 && ncalls("(*parser).assertEOL") == 0 && ncalls("(*parser).curComment") == 0
+//@   loop 1 invariant[C10 C05 branch-scopes-closed] p.scope == old(p.scope) && ifStmt != nil && p.cur != nil && p.peek != nil && ncalls("(*parser).assertEnd") == 0 && ncalls("(*parser).assertEOL") == 0 && ncalls("(*parser).curComment") == 0
 
 //@ func (p *parser) parseFuncCall(isTopLevel bool) (n Node)
 //@   noverify argument parsing and checking are not under contract
